@@ -6,7 +6,8 @@ C04 — model of conditional refinement:
 `impl SpecializeByConditional for DataDomain` (data/conditional_specialization.rs), which refine the
 absolute part only.
 
-The model follows the code after the repair of D10 (`rem_euclid` for the residue class).
+The model follows the code after the repair of D10 (`rem_euclid` for the residue class) and of
+`intersect-lcm-overflow-false-unsat` (`compute_unique_common_value` for strides with lcm > `u64::MAX`).
 `i128` arithmetic that can overflow (the products of the chinese-remainder computation) wraps
 explicitly (`i128`), everything else is provably in range for operands of at most 64 bit.
 -/
@@ -72,6 +73,27 @@ def computeIntersectionResidueClass (I J : Interval) : Residue :=
         .some (toU 64 lcm) (toU 64 rc)
       else .err
 
+/-- `as u128` of an `i128` value / wrap of a `u128` computation -/
+def u128 (z : Int) : Int := z % 2 ^ 128
+
+/-- `compute_unique_common_value` (repair of `intersect-lcm-overflow-false-unsat`): the only candidate
+`start_left + t * stride_left` for a common value when the lcm of the strides exceeds `u64::MAX`.
+Only called with two positive strides. -/
+def computeUniqueCommonValue (I J : Interval) : Option Int :=
+  let sl : Int := I.stride
+  let sr : Int := J.stride
+  match tryToI64 I.w I.start, tryToI64 J.w J.start with
+  | some a, some b =>
+    let d := i128 (b - a)
+    let (g, li, _) := extendedGcd sl sr
+    if trem d g ≠ 0 then none
+    else
+      let m := tquot sr g
+      let t := u128 (u128 (tquot d g % m) * u128 (li % m)) % u128 m    -- `rem_euclid`, `as u128`, u128 `*`, `%`
+      let off := u128 (t * u128 sl)
+      if off ≤ 2 ^ 64 - 1 then some (i128 (a + off)) else none           -- `u64::try_from(..).ok()?`
+  | _, _ => none
+
 namespace Interval
 
 /-- `Interval::signed_intersect`; `none` = `Err` (empty, or overflow in the residue computation) -/
@@ -82,6 +104,16 @@ def signedIntersect (I J : Interval) : Option Interval :=
     if s = e then some { w := I.w, start := s, stop := e, stride := 0 } else none
   else if I.w > 64 then
     if s ≤ e then some { w := I.w, start := s, stop := e, stride := if s = e then 0 else 1 } else none
+  else if I.stride / Nat.gcd I.stride J.stride * J.stride > 2 ^ 64 - 1 then
+    -- the lcm of the strides is not a `u64` (the `u128` product of two `u64` cannot wrap):
+    -- at most one common value
+    match computeUniqueCommonValue I J with
+    | some v =>
+      match tryToI128 I.w s, tryToI128 I.w e with
+      | some s', some e' =>
+        if s' ≤ v ∧ v ≤ e' then some { w := I.w, start := wrap I.w v, stop := wrap I.w v, stride := 0 } else none
+      | _, _ => none
+    | none => none
   else
     match computeIntersectionResidueClass I J with
     | .some stride rem =>
